@@ -4,9 +4,9 @@
 //         precision), inv_mod2k, inv_mod2k_vartime (all k admitted), inv_mod2k_full_vartime (bit-serial inverse mod 2^k, invariant
 //         a*x + b*2^i == 1 mod W of the fixed-width twins in l4_invmod.rs), `impl InvMod for BoxedUint`,
 //         wrapping_sub_assign.
-// stub (ASSUMED): inv_odd_mod (Bernstein-Yang safegcd inverter, src/modular/safegcd/boxed.rs), set_bit / set_bit_vartime (bit write,
-//         contract of the proved Uint::set_bit / set_bit_vartime of l2_shift.rs), as_words / as_words_mut (`&[Limb]` reinterpreted as
-//         `&[Word]` by an unsafe cast); model of subtle: `From<CtOption<T>> for Option<T>`.
+// body (proved, bit writes): set_bit, set_bit_vartime (lemmas: l8_boxed_lemmas.rs, copies of the private bit lemmas of l2_shift.rs).
+// stub (ASSUMED): inv_odd_mod (Bernstein-Yang safegcd inverter, src/modular/safegcd/boxed.rs), as_words / as_words_mut (`&[Limb]` reinterpreted as
+//         `&[Word]` by an unsafe cast); model of subtle: `From<CtOption<T>> for Option<T>`, `ConstantTimeEq for usize`.
 // Separate unit because the `ConstantTimeSelect` trait of l8_boxed_methods.rs declares `ct_select` only (one region = one impl
 // block = one method): `ct_assign` is declared and proved in l8_boxed_ct.rs and imported by name here.
 // Lemmas: l8_boxed_lemmas.rs (copies of private lemmas of l4_invmod.rs).   dev: /verif/tools/vunit.py l8_boxed_invmod
@@ -53,6 +53,13 @@ impl<T> vstd::std_specs::convert::FromSpecImpl<CtOption<T>> for Option<T> {
     open spec fn from_spec(source: CtOption<T>) -> Option<T> { if source.is_some.0 == 1 { Some(source.value) } else { None::<T> } }
 }
 
+// subtle: `generate_integer_equal!(usize, ..)`: `impl ConstantTimeEq for usize` (1 iff equal)
+impl ConstantTimeEq for usize {
+    #[verifier::external_body]
+    fn ct_eq(&self, other: &usize) -> (r: Choice)
+        ensures r.wf(), r.t() == (*self == *other)
+    { Choice((*self == *other) as u8) }
+}
 /// `InvMod` of /repo/src/traits.rs, hand-declared
 pub trait InvMod<Rhs = Self>: Sized {
     type Output;
@@ -119,9 +126,8 @@ pub fn wrapping_sub_assign(&mut self, rhs: &Self)
     }
 }
 //@@ end
-//@@ fn src/uint/boxed/bits.rs | impl BoxedUint | set_bit | stub | props C05 C11
+//@@ fn src/uint/boxed/bits.rs | impl BoxedUint | set_bit | body | props C05 C11
 impl BoxedUint {
-#[verifier::external_body]
 pub fn set_bit(&mut self, index: u32, bit_value: Choice)
 //@+
     requires bit_value.wf()
@@ -130,13 +136,50 @@ pub fn set_bit(&mut self, index: u32, bit_value: Choice)
         (index as int) >= 64 * old(self).nl() ==> final(self).v() == old(self).v()
 //@-
 {
-    unimplemented!()
-}
+        let limb_num = (index / Limb::BITS) as usize;
+        let index_in_limb = index % Limb::BITS;
+        let index_mask = 1 << index_in_limb;
+//@+
+    let ghost s0 = self.limbs@; let ghost n = self.limbs@.len();
+    let ghost c: int = if bit_value.t() { 1 } else { 0 }; let ghost pr = p2(index_in_limb as nat);
+//@-
+        for i in 0..self.nlimbs()
+//@+
+    invariant self.limbs@.len() == n, s0.len() == n, VERUS_ghost_iter.iter.end == n, bit_value.wf(), index_in_limb < 64, index_mask == 1u64 << index_in_limb,
+        c == (if bit_value.t() { 1int } else { 0int }), pr == p2(index_in_limb as nat),
+        forall|k: int| 0 <= k < n && (k != limb_num || k >= VERUS_ghost_iter.index@) ==> self.limbs@[k] == s0[k],
+        (limb_num as int) < VERUS_ghost_iter.index@ ==> self.limbs@[limb_num as int].0 as int == s0[limb_num as int].0 as int
+            - (if (s0[limb_num as int].0 as int / pr) % 2 == 1 { pr } else { 0 }) + (if c == 1 { pr } else { 0 }),
+//@-
+{
+//@+
+    proof { lemma_word_set_bit(self.limbs@[i as int].0, index_in_limb); }
+//@-
+            let limb = &mut self.limbs[i];
+            let is_right_limb = i.ct_eq(&limb_num);
+            let old_limb = *limb;
+            let new_limb = Limb::conditional_select(
+                &Limb(old_limb.0 & !index_mask),
+                &Limb(old_limb.0 | index_mask),
+                bit_value,
+            );
+            *limb = Limb::conditional_select(&old_limb, &new_limb, is_right_limb);
+        }
+//@+
+    proof {
+        if (index as int) < 64 * n {
+            lemma_set_bit_value(s0, self.limbs@, n, limb_num as nat, index_in_limb as nat, c);
+            assert(index as nat == 64 * (limb_num as nat) + index_in_limb as nat);
+        } else {
+            lemma_val_ext(s0, self.limbs@, n);
+        }
+    }
+//@-
+    }
 }
 //@@ end
-//@@ fn src/uint/boxed/bits.rs | impl BoxedUint | set_bit_vartime | stub | props C05 C11 C15
+//@@ fn src/uint/boxed/bits.rs | impl BoxedUint | set_bit_vartime | body | props C05 C11 C15
 impl BoxedUint {
-#[verifier::external_body]
 pub fn set_bit_vartime(&mut self, index: u32, bit_value: bool)
 //@+
     requires (index as int) < 64 * old(self).nl()
@@ -144,8 +187,26 @@ pub fn set_bit_vartime(&mut self, index: u32, bit_value: bool)
         final(self).v() == old(self).v() - ((old(self).v() / p2(index as nat)) % 2) * p2(index as nat) + (if bit_value { 1int } else { 0int }) * p2(index as nat)
 //@-
 {
-    unimplemented!()
-}
+        let limb_num = (index / Limb::BITS) as usize;
+        let index_in_limb = index % Limb::BITS;
+//@+
+    let ghost s0 = self.limbs@; let ghost n = self.limbs@.len();
+    proof { lemma_word_set_bit(self.limbs@[limb_num as int].0, index_in_limb); }
+//@-
+        if bit_value {
+            self.limbs[limb_num].0 |= 1 << index_in_limb;
+        } else {
+            {
+                self.limbs[limb_num].0 &= !((1 as Word) << index_in_limb);
+            }
+        }
+//@+
+    proof {
+        lemma_set_bit_value(s0, self.limbs@, n, limb_num as nat, index_in_limb as nat, if bit_value { 1 } else { 0 });
+        assert(index as nat == 64 * (limb_num as nat) + index_in_limb as nat);
+    }
+//@-
+    }
 }
 //@@ end
 //@@ fn src/uint/boxed/inv_mod.rs | impl BoxedUint | inv_mod2k_full_vartime | body | props C10 C11 C15
